@@ -161,6 +161,10 @@ def rules(ck, P):
         okb = ir.contains(pl["body"], lambda y: y.get("k") == "if" and ir.cmp_norm(y["c"]) is not None and ir.cmp_norm(y["c"])[0].endswith(".run_length") and ir.cmp_norm(y["c"])[1:] == (">", "0"))
         ck.check(okb, "R-PM-RUN", pl["q"], "lookup: run_length > 0 is a tile, otherwise the entry is followed as a leaf directory", "lookup does not distinguish tiles from leaf pointers by run_length", ir.loc(pl))
 
+    # ---------------- R-PM-OFFSET0: a stored offset of 0 means "starts where the PREVIOUS entry ends"
+    fbl = [b for b in P.bodies if b["q"].endswith("entries_v3::EntriesV3::from_blob")]
+    if ck.anchor("R-PM-OFFSET0", "EntriesV3::from_blob", fbl, 1):
+        _pm_offset0(ck, fbl[0])
     # ---------------- R-CACHE-KEY: a cached value is a function of its key
     _cache_key_rules(ck, P)
     wire.block_geometry_rules(ck, P)
@@ -208,6 +212,70 @@ def rules(ck, P):
             t = [wire.match_table(n) for n in ir.walk_nodes(fu["body"]) if n.get("k") == "match"]
             inv = {v: k for k, v in (t[0] if t else {}).items() if v is not None}
             ck.check(inv == wire.SPEC_CODES[spec_key], "R-CODE", spec_key + "|from_u8", "from_u8 accepts exactly the published codes", "from_u8 table %s" % (t[0] if t else None), ir.loc(fu))
+
+
+def _pm_offset0(ck, b):
+    """PMTiles v3 directories store offset+1, and 0 for an entry that starts exactly where the previous entry ends.  The decoder
+    must resolve 0 to previous.offset + previous.length — either by indexing entry i-1 or through a cursor that is set to
+    offset + length of the entry just decoded (not, e.g., to a running maximum: de-duplicated archives point backwards)."""
+    from . import affine as A
+    loops = [n for n in ir.walk_nodes(b["body"]) if n.get("k") == "for" and
+             ir.contains(n["body"], lambda y: y.get("k") == "assign" and ir.strip(y["l"]).get("k") == "field" and ir.strip(y["l"]).get("name") == "offset")]
+    if not ck.check(len(loops) == 1, "R-PM-OFFSET0", "loop", "one loop decodes the offset column", "%d loops assign offsets" % len(loops), ir.loc(b)):
+        return
+    lp = loops[0]
+    body = lp["body"]
+    # the value assigned in the `stored == 0` case (statement form or if-expression form)
+    cont = None
+    for n in ir.walk_nodes(body):
+        if n.get("k") == "if" and ir.contains(n["c"], lambda y: y.get("k") == "bin" and y.get("op") == "==" and ir.const_eval(y["r"], {}) == 0):
+            asg = [y for y in ir.walk_nodes(n["then"]) if y.get("k") == "assign" and ir.strip(y["l"]).get("name") == "offset"]
+            if asg:
+                cont = asg[0]["r"]
+            else:
+                t = ir.unparen(n["then"])
+                cont = t.get("tail") if t.get("k") == "block" and not t.get("stmts") else t
+    if not ck.check(cont is not None, "R-PM-OFFSET0", "branch", "the stored value 0 has its own branch", "no branch for a stored offset of 0", ir.loc(lp)):
+        return
+    env = A.Env()
+    v = A.ev(cont, env)
+    ok = False
+    why = "value is `%s`" % A.show(v)
+    # form A: entries[i - 1].range.offset + entries[i - 1].range.length
+    if v is not A.TOP and len(v) == 2 and all(c_ == 1 for c_ in v.values()):
+        atoms = [m[0] for m in v if len(m) == 1]
+        if len(atoms) == 2 and all(a[0] == "sym" for a in atoms):
+            def split(a):
+                pl = a[1]
+                return (pl[0], pl[1]) if isinstance(pl, tuple) and len(pl) == 2 and pl[1] in (".offset", ".length") else (None, None)
+            (b0, f0), (b1, f1) = split(atoms[0]), split(atoms[1])
+            if b0 is not None and b0 == b1 and {f0, f1} == {".offset", ".length"}:
+                # b0 = (<entries>[i - 1], ".range"): the index term must be loop index - 1
+                idx_ok = False
+                base = b0[0] if isinstance(b0, tuple) and b0[1] == ".range" else None
+                lv = ir.pat_binds(lp["pat"])
+                if base is not None and isinstance(base, tuple) and isinstance(base[1], str) and base[1].startswith("["):
+                    want = [A.freeze(A.sub(A.local_sym(x), A.const(1))) for x in lv if x["t"] == "usize"]
+                    idx_ok = any(base[1] == "[%s]" % (w,) for w in want)
+                ok = idx_ok
+                why = "value is %s with index ok=%s" % (A.show(v), idx_ok)
+    # form B: a cursor local that is set to offset + length of the entry just decoded at the end of every iteration
+    if not ok:
+        ch = ir.local_hid(cont)
+        if ch is not None:
+            sts = ir.stmts_of(body)
+            env2 = A.Env()
+            A.run(sts, env2)
+            fin = env2.m.get(ch)
+            ups = [y for y in ir.walk_nodes(body) if y.get("k") in ("assign", "assignop") and ir.local_hid(y["l"]) == ch]
+            if fin is not A.TOP and fin is not None and len(ups) == 1 and len(fin) == 2 and all(c_ == 1 for c_ in fin.values()):
+                atoms = [m[0] for m in fin if len(m) == 1]
+                pls = [a[1] for a in atoms if a[0] == "sym"]
+                if len(pls) == 2 and all(isinstance(pl, tuple) and pl[1] in (".offset", ".length") for pl in pls) and pls[0][0] == pls[1][0] and {pls[0][1], pls[1][1]} == {".offset", ".length"}:
+                    ok = True
+            why = "cursor after one iteration is `%s`" % A.show(fin)
+    ck.check(ok, "R-PM-OFFSET0", "contiguous", "a stored offset of 0 resolves to previous.offset + previous.length",
+             "a stored offset of 0 does not resolve to the end of the PREVIOUS entry (%s): archives with shared (backward) offsets return another tile's bytes" % why, ir.loc(lp))
 
 
 def _mb_nonempty(ck, P, b):
